@@ -26,12 +26,33 @@ def one(spec):
         if rc == 0:
             env = dict(os.environ); env["PYTHONPATH"] = wt; env.pop("BUIDL_VERIF_TRACE", None)
             rc1, o1 = sh(["/venv/bin/python", demo], cwd=wt, env=env, timeout=1800)
-            env2 = dict(env); env2["PYTHONPATH"] = "/repo"
-            rc0, o0 = sh(["/venv/bin/python", demo], cwd="/repo", env=env2, timeout=1800)
+            # the clean run uses a second scratch worktree at the same commit (never /repo: other tools may be applying patches there)
+            clean = "/tmp/wtc_clean_" + name
+            sh(["git", "-C", "/repo", "worktree", "remove", "--force", clean])
+            sh(["git", "-C", "/repo", "worktree", "add", "--detach", clean, "HEAD"])
+            env2 = dict(env); env2["PYTHONPATH"] = clean
+            rc0, o0 = sh(["/venv/bin/python", demo], cwd=clean, env=env2, timeout=1800)
+            sh(["git", "-C", "/repo", "worktree", "remove", "--force", clean])
             res["demo_with_change"] = {"rc": rc1, "tail": o1[-400:]}
             res["demo_clean"] = {"rc": rc0, "tail": o0[-400:]}
-            rct, ot = sh(["python3", "/verif/tools/repo_tests.py", wt, "3"], timeout=5000)
+            rct, ot = sh(["python3", "/verif/tools/repo_tests.py", wt, "3"], timeout=9000)
             res["tests"] = {"rc": rct, "tail": ot[-800:]}
+            missing = [l.split()[-1] for l in ot.splitlines() if l.strip().startswith("MISSING")]
+            cli = [m for m in missing if m.startswith("test_multiwallet.") or m.startswith("test_singlesweep.")]
+            if missing and len(cli) == len(missing):
+                # pexpect CLI tests have 2-second start-up timeouts and fail on a loaded machine: re-run them serially
+                import xml.etree.ElementTree as ET
+                want, passed, tries = set(cli), set(), 0
+                while tries < 6 and not want <= passed:
+                    tries += 1
+                    x = "/tmp/wtc_cli_%s.xml" % name
+                    sh(["/venv/bin/python", "-m", "pytest", "-q", "-p", "no:cacheprovider", "-p", "no:rerunfailures", "--timeout=900", "--junitxml=" + x,
+                        "test_multiwallet.py", "test_singlesweep.py"], cwd=wt, env=env, timeout=3000)
+                    for tc in ET.parse(x).getroot().iter("testcase"):
+                        if not any(ch.tag in ("failure", "error", "skipped") for ch in tc):
+                            passed.add("%s::%s" % (tc.get("classname"), tc.get("name")))
+                    os.unlink(x)
+                res["cli_retry"] = {"tries": tries, "still_missing": sorted(want - passed)}
     finally:
         sh(["git", "-C", "/repo", "worktree", "remove", "--force", wt])
     json.dump(res, open(os.path.join(OUT, name + ".json"), "w"), indent=1)
